@@ -18,7 +18,7 @@ pub fn def() -> PropDef {
     PropDef {
         id: "C06",
         level: "exploration",
-        profiles: &["checked"],
+        profiles: &["checked", "fast"],
         abort_is_violation: false,
         rule: "inputs: (a) valid documents of every format whose numbers are replaced by boundary values relative to \
                the literal type and the declared header values (MAX, MAX+1, V, V+1, 2M+1, 2M+2, 2^k-1/2^k/2^k+1, \
@@ -33,6 +33,7 @@ pub fn def() -> PropDef {
                the reader accepts are not reported here. Non-trivial: the reader reached a verdict (accept or \
                must-reject) on an input containing a boundary number or a limit violation. Distinct by hash.",
         assumptions: &[
+            "shards alternate between a build with overflow checks and a plain release build: a wrap-around that panics in the former (C05's business) is a silently accepted wrong number in the latter",
             "the reference readers in harness/src/refs.rs follow the format descriptions; texts they do not understand yield no verdict (counted as undecided)",
         ],
         exhaustive: |_| false,
